@@ -14,7 +14,8 @@
    (C02_extended_range, C02_override_x_inverse, C02_adaptive_minmax, C02_adaptive_minmax_2d, C02_individual_axes).
    Each model is tied to the code by an exact-integer correspondence in harness/c02.py.  The translator refuses a
    skip_sorting method that is not in its list of modelled ones.  collab_pls has no order-related statement at all
-   (it passes per-point arrays between sub-fitters in the supplied order) and is covered by the oracle only. *)
+   (it passes per-point arrays between sub-fitters in the supplied order); it is modelled in C02/CollabModel.v and
+   proved equivariant (C02_collab_pls). *)
 From Coq Require Import List String.
 Import ListNotations.
 Open Scope string_scope.
